@@ -114,6 +114,11 @@ def make_inst(seed_seq) -> dict:
     rng = np.random.default_rng(seed_seq)
     o = random_oils(rng.integers(0, 2**31, 4).tolist(), 1, pb_range=(150.0, 7000.0))[0]
     sal = float(rng.uniform(0.0, 25.0))
+    if rng.random() < 0.34:
+        # whole-number Python ints, as in the repository's own fixtures (temperature=200, api=35, gor=650): with integer
+        # pressure arrays every intermediate product is then integer unless the correlation makes it floating
+        o = (int(round(o[0])), int(round(o[1])), o[2], int(round(o[3])))
+        sal = int(round(sal))
     nh = gas.make_nonhydrocarbon_properties(float(rng.uniform(0, 0.03)), float(rng.uniform(0, 0.02)),
                                             float(rng.uniform(0, 0.04)))
     kind = "wet gas" if rng.random() < 0.5 else "dry gas"
